@@ -6,6 +6,7 @@ A string built from numbers is kept as a list of parts instead of characters:
     ('num', x, decimals, width, sign)   format(x, f'{sign}{width}.{decimals}f'): fixed-point rendering of the real x
     ('int', n)                      str(n) for an int n
     ('pystr', x)                    str(x) for a float x (repr-style shortest rendering)
+    ('efmt', x, digits)             '%.<digits>e' % x  (scientific rendering of the real x)
     ('lead', x, ...)                text produced by a function under contract that starts with a rendering of x
     ('if', c, 'text')               'text' if c else ''
 
@@ -309,6 +310,17 @@ def _binop(self, interp, op, a, b, node):
         if z3.is_app(t) and t.decl().kind() == z3.Z3_OP_ITE and z3.is_int_value(t.arg(1)) and z3.is_int_value(t.arg(2)) \
                 and t.arg(1).as_long() == 1 and t.arg(2).as_long() == 0:
             return SStr([("if", wrap(t.arg(0)), text)])
+    if op == "%" and isinstance(a, str):
+        # 'text %1.16e text' % x  /  'text %d text' % n  with a single conversion
+        import re
+        m = re.fullmatch(r"([^%]*)%(?:(\d*)\.(\d+))?([ed])([^%]*)", a)
+        x = b[0] if isinstance(b, tuple) and len(b) == 1 else b
+        if m and isinstance(x, SCALAR) and not isinstance(x, (bool, SBool)):
+            pre, width, prec, conv, post = m.groups()
+            if conv == "d" and isinstance(x, (int, SInt)) and prec is None:
+                return mk([pre] + parts_of(to_str(x)) + [post])
+            if conv == "e":
+                return mk([pre, ("efmt", x, int(prec) if prec is not None else 6), post])
     return _old_binop(self, interp, op, a, b, node)
 
 
